@@ -308,7 +308,8 @@ def build(tier="quick", seed=0):
     b = Bundle("C10")
     cfgs = QUICK if tier == "quick" else all_configs()
     ctx = mp.get_context("fork")
-    with ctx.Pool(min(16, len(cfgs))) as pool:
+    from tpv.oblig import _die_with_parent
+    with ctx.Pool(min(16, len(cfgs)), initializer=_die_with_parent) as pool:
         res = pool.map(one_config, cfgs, chunksize=1)
     for sub in res:
         b.extend(sub.obligations)
